@@ -11,7 +11,7 @@
 
    Range: MulMod splits one factor into 8-bit pieces, so nothing leaves 0 .. 2^31-1 as long as
    p < 2^22 (TLC integers are 32-bit signed; products p*p overflow for p >= 46341).              *)
-EXTENDS Naturals, Sequences
+EXTENDS Naturals, Sequences, TLC
 
 (* ------------------------------------------------------------------ arithmetic mod p *)
 AddMod(u, v, p) == (u + v) % p
@@ -31,9 +31,15 @@ PowMod(u, e, p) ==                                       \* u^e mod p by square-
             s == MulMod(h, h, p)
         IN  IF e % 2 = 1 THEN MulMod(s, u % p, p) ELSE s
 
-InvMod(v, p) == PowMod(v, p - 2, p)                      \* Fermat; p prime, v % p # 0
-                                                         \* (IsInv below lets TLC confirm each use)
+InvFermat(v, p) == PowMod(v, p - 2, p)                   \* p prime, v % p # 0
+\* Evaluation speed only: for the 8-bit fields of EcCurves the inverses are tabulated once (a constant
+\* definition, which TLC evaluates a single time; TLCEval makes it a stored table instead of a formula).
+\* The table is DEFINED as the Fermat inverse, and IsInv is what the ASSUME below confirms for every entry.
+TabPrimes == { 239, 241, 251 }
+InvTab == TLCEval([p \in TabPrimes |-> TLCEval([v \in 1..(p - 1) |-> InvFermat(v, p)])])
+InvMod(v, p) == IF p \in TabPrimes THEN InvTab[p][v] ELSE InvFermat(v, p)
 IsInv(w, v, p) == MulMod(w, v, p) = 1
+ASSUME \A p \in TabPrimes : \A v \in 1..(p - 1) : IsInv(InvMod(v, p), v, p)
 
 (* ------------------------------------------------------------------ points *)
 Inf == << >>
@@ -91,11 +97,10 @@ Mul(c, k, P) ==
 TwinMul(c, k, P, l, Q) == Add(c, Mul(c, k, P), Mul(c, l, Q))             \* k*P + l*Q
 
 \* << 0*P, 1*P, ..., kmax*P >> by repeated addition (index k+1 holds k*P)
-RECURSIVE MulTableAcc(_, _, _, _)
-MulTableAcc(c, P, kmax, acc) ==
-   IF Len(acc) > kmax THEN acc
-   ELSE MulTableAcc(c, P, kmax, Append(acc, Add(c, acc[Len(acc)], P)))
-MulTable(c, P, kmax) == MulTableAcc(c, P, kmax, << Inf >>)
+RECURSIVE MulTable(_, _, _)
+MulTable(c, P, kmax) ==                                  \* recursion depth kmax: meant for kmax of a few hundred
+   IF kmax = 0 THEN << Inf >>
+   ELSE LET prev == MulTable(c, P, kmax - 1) IN Append(prev, Add(c, prev[kmax], P))
 
 (* ------------------------------------------------------------------ curve sanity (used in ASSUMEs) *)
 IsPrime(q) == q > 1 /\ \A d \in 2..(q - 1) : d > q \div d \/ q % d # 0     \* trial division up to sqrt(q)
